@@ -33,6 +33,8 @@ type Answer struct {
 	Evil         string `json:"evil,omitempty"`          // adversarial id_token grammar element
 	RSA          bool   `json:"rsa,omitempty"`           // sign with the RSA key of the JWKS
 	ExpiresInRaw string `json:"expires_in_raw,omitempty"` // verbatim JSON for expires_in
+	AccessLife   int    `json:"access_life,omitempty"`    // the access token lives this many seconds (expires_in says so); the ID token keeps the provider's lifetime
+	Azp          bool   `json:"azp,omitempty"`            // honest ID token that also carries azp = client id
 }
 
 var Honest = Answer{Name: "honest"}
@@ -85,6 +87,9 @@ type Issued struct {
 	Exp    time.Time
 	Honest bool
 	Seq    int
+	// Announced (access tokens): the answer that carried the token also carried a well-formed expires_in, so the
+	// service knows when it expires
+	Announced bool
 }
 
 // SimIdP is the deterministic simulated identity provider with a ledger.
@@ -318,6 +323,9 @@ func (p *SimIdP) process(tr *TokenReq, mode Answer) (int, string) {
 		if !(isRefresh && mode.NoNonce) {
 			claims["nonce"] = login.Nonce
 		}
+		if mode.Azp {
+			claims["azp"] = p.ClientID
+		}
 		key := p.Key
 		if mode.RSA {
 			key = p.RSAKey
@@ -338,7 +346,11 @@ func (p *SimIdP) process(tr *TokenReq, mode Answer) (int, string) {
 		at := fmt.Sprintf("AT-%d-%04d-sekret", login.ID, p.next())
 		resp["access_token"] = at
 		tr.Access = at
-		p.Issued[at] = &Issued{Kind: "access", Login: login.ID, Exp: exp, Honest: true, Seq: p.seq}
+		aexp := exp
+		if mode.AccessLife > 0 {
+			aexp = now.Add(time.Duration(mode.AccessLife) * time.Second)
+		}
+		p.Issued[at] = &Issued{Kind: "access", Login: login.ID, Exp: aexp, Honest: true, Seq: p.seq, Announced: !mode.NoExpiresIn && mode.ExpiresInRaw == ""}
 	}
 	if isRefresh {
 		if !mode.KeepRT && !mode.NoRefresh {
@@ -361,6 +373,9 @@ func (p *SimIdP) process(tr *TokenReq, mode Answer) (int, string) {
 		honest = false
 	} else if !mode.NoExpiresIn {
 		resp["expires_in"] = p.TokenLife
+		if mode.AccessLife > 0 {
+			resp["expires_in"] = mode.AccessLife
+		}
 	}
 	if mode.Extra {
 		resp["scope"] = "openid email"
